@@ -214,6 +214,24 @@ class Rec:
             self.part.sample(mk(), False)
 
 
+_VIOL_PER_ITEM = 3
+_viol_count = [0]
+
+
+def new_item():
+    _viol_count[0] = 0
+
+
+def viol(part, case, msg):
+    """Store at most _VIOL_PER_ITEM replayable records per work item (so that the reported replays come from
+    different stages / items); every further violating case is still counted."""
+    if _viol_count[0] < _VIOL_PER_ITEM or getattr(core, "_KNOWN", None):
+        part.violation(case, msg)
+    else:
+        part.n_viol += 1
+    _viol_count[0] += 1
+
+
 def okey(*a):
     return hash(a) & 0xFFFFFFFFFFFFFFF
 
@@ -343,7 +361,7 @@ def s1_exec(part, rec, case, key, nt=None):
     rec.case(key, nt, lambda c=case: dict(c))
     err, ok = s1_run(case)
     if err:
-        part.violation(case, "stage 1 (match_candidates_sample): " + err)
+        viol(part, case, "stage 1 (match_candidates_sample): " + err)
         part.outcome(okey("s1err", err[:40]))
     else:
         part.outcome(okey("s1", ok))
@@ -390,7 +408,7 @@ def work_s1b(part, item):
             got = sorted((int(k), int(a), int(b)) for k, (a, b) in zip(rei.tolist(), repi.tolist()))
             exp = sorted((k, a, b) for k, (u, v) in enumerate(edges) for a in glob[u] for b in glob[v])
             if got != exp:
-                part.violation(
+                viol(part, 
                     {"stage": 1, "family": "cand", "edges": [list(e) for e in edges], "channels": list(channels)},
                     f"stage 1 (get_connection_candidates): candidates {got} are not all src x dst pairs per edge {exp}",
                 )
@@ -419,7 +437,7 @@ def work_s1b(part, item):
                 if not ok:
                     real_order = None
         except Exception as e:
-            part.violation(
+            viol(part, 
                 {"stage": 1, "family": "cand", "edges": [list(e) for e in edges], "channels": list(channels)},
                 f"stage 1 (get_connection_candidates) raised {type(e).__name__}: {e}",
             )
@@ -635,7 +653,7 @@ def s2_exec(part, rec, n, edges, counts, layout, static, matches, mls, mip, key)
     mk = lambda: s2_case(n, edges, counts, layout, matches, mls, mip)
     rec.case(key, nt, mk)
     if err:
-        part.violation(mk(), "stage 2 (group_instances_sample): " + err)
+        viol(part, mk(), "stage 2 (group_instances_sample): " + err)
         part.outcome(okey("s2err", err[:40]))
     else:
         part.outcome(okey("s2", tuple(got)))
@@ -870,7 +888,7 @@ def work_s3(part, item):
             part.add("stage3_predict_calls")
             if isinstance(res, str):
                 rec.case(key, True, mk)
-                part.violation(mk(), "stage 3 (PAFScorer.predict): " + res)
+                viol(part, mk(), "stage 3 (PAFScorer.predict): " + res)
                 part.outcome(okey("s3err", res[:40]))
                 continue
             nt_any = False
@@ -891,7 +909,7 @@ def work_s3(part, item):
             if bad:
                 if bad.startswith("HARNESS"):
                     part.add("harness_errors")
-                part.violation(mk(), "stage 3 (PAFScorer.predict): " + bad)
+                viol(part, mk(), "stage 3 (PAFScorer.predict): " + bad)
         if len(cache) > 64:
             cache.clear()
     rec.close()
@@ -903,6 +921,7 @@ def work_s3(part, item):
 
 def work(part, shard):
     for item in shard:
+        new_item()
         kind = item[0]
         if kind == "1A":
             work_s1a(part, item)
@@ -1054,7 +1073,15 @@ def run(ctx):
     # heavy items first (stable), light ones bundled
     heavy = sorted((it for it in items if item_weight(it) >= 3000), key=lambda it: -item_weight(it))
     light = [it for it in items if item_weight(it) < 3000]
-    shards = [[it] for it in heavy] + core.shard_list(light, 48)
+    # one item of every stage at the very front, end-to-end first: the replays that get written out then span the stages
+    front = []
+    for kind in ("3", "2B", "2A", "1A"):
+        for it in heavy:
+            if it[0] == kind:
+                front.append(it)
+                heavy.remove(it)
+                break
+    shards = [[it] for it in front + heavy] + core.shard_list(light, 48)
     core.pmap(ctx, work, shards)
     ctx.extra["work_items"] = len(items)
 
